@@ -44,6 +44,13 @@ PLAN = {
  "C13-m9": ["C13"], "C13-m10": ["C13"], "C14-m9": ["C14"], "C14-m10": ["C14"], "C15-m9": ["C15"], "C15-m10": ["C15"],
  "C16-m9": ["C16", "C10"], "C16-m10": ["C16"], "C17-m9": ["C17"], "C17-m10": ["C17"], "C18-m9": ["C18"], "C18-m10": ["C18"],
  "C19-m9": ["C19", "C08"], "C20-m9": ["C20"], "C20-m10": ["C20", "C12"],
+ # round 7
+ "C01-m11": ["C01", "C09"], "C01-m12": ["C01"], "C02-m11": ["C02"], "C02-m12": ["C02", "C17"], "C03-m11": ["C03", "C05"], "C03-m12": ["C03", "C05"],
+ "C04-m11": ["C04"], "C05-m11": ["C05"], "C05-m12": ["C05"], "C06-m11": ["C06", "C13"], "C06-m12": ["C06"], "C07-m11": ["C07"], "C07-m12": ["C07", "C19"],
+ "C08-m11": ["C08", "C19"], "C08-m12": ["C08", "C15"], "C09-m11": ["C09"], "C09-m12": ["C09"], "C10-m11": ["C10"], "C10-m12": ["C10"],
+ "C11-m11": ["C11"], "C11-m12": ["C11"], "C12-m11": ["C12"], "C12-m12": ["C12"], "C13-m11": ["C13"], "C13-m12": ["C13"], "C14-m11": ["C14"], "C14-m12": ["C14"],
+ "C15-m11": ["C15"], "C15-m12": ["C15"], "C16-m11": ["C16"], "C17-m11": ["C17", "C08"], "C17-m12": ["C17"], "C18-m11": ["C18"], "C18-m12": ["C18"],
+ "C19-m11": ["C19", "C07"], "C19-m12": ["C19", "C08"], "C20-m11": ["C20"], "C20-m12": ["C20"],
 }
 only = sys.argv[1:]
 path = os.path.join(HERE, "seeded", "detection.json")
